@@ -351,12 +351,11 @@ func main() {
 	np := len(geomgen.FinitePatterns)
 	// pattern indices of the alternating-neighbour family: -0, 5e-324, 0.1, 1e21,
 	// -1.5, 100, 0 in the quick tier, all patterns in the thorough tier
-	altPatterns := []int{0, 1, 3, 5, 13, 17, 18}
-	if tier == "thorough" {
-		altPatterns = nil
-		for i := range geomgen.FinitePatterns {
-			altPatterns = append(altPatterns, i)
-		}
+	// (thorough: all patterns for geometries of up to 6 vertices)
+	altQuick := []int{0, 1, 3, 5, 13, 17, 18}
+	var altAll []int
+	for i := range geomgen.FinitePatterns {
+		altAll = append(altAll, i)
 	}
 	var n, nontrivial int64
 	// sequential history pass (one goroutine, so any sharing between calls is
@@ -419,6 +418,10 @@ func main() {
 		// the vertex list in the same ordinate (x: a,b,a,.. y: b,a,b,..), so
 		// that consecutive vertices differ only in, e.g., the sign of a zero
 		if s.NPoints() >= 2 {
+			altPatterns := altQuick
+			if tier == "thorough" && s.NPoints() <= 6 {
+				altPatterns = altAll
+			}
 			for _, a := range altPatterns {
 				for _, b := range altPatterns {
 					pair := make([]int, 2*s.NPoints())
